@@ -26,7 +26,38 @@ class Sign:
         self.cond = cond
 
 
+class Txt:
+    """an ARBITRARY piece of text without line-boundary characters (possibly empty, possibly with blanks at its edges);
+    stripped=True: the same text with leading and trailing whitespace removed"""
+    def __init__(self, name, stripped=False):
+        self.name, self.stripped = name, stripped
+
+    def __repr__(self):
+        return 'Txt(%s%s)' % (self.name, ', stripped' if self.stripped else '')
+
+
+def _piece_eq(a, b):
+    if isinstance(a, str) or isinstance(b, str):
+        return isinstance(a, str) and isinstance(b, str) and a == b
+    if isinstance(a, Txt) and isinstance(b, Txt):
+        return a.name == b.name and a.stripped == b.stripped
+    return a is b
+
+
 class SymStr:
+    def __eq__(self, other):
+        """syntactic equality (sound for 'equal', never claims equality of different numeric fields)"""
+        if isinstance(other, str):
+            other = SymStr([other])
+        if not isinstance(other, SymStr):
+            return False
+        return len(self.pieces) == len(other.pieces) and all(_piece_eq(a, b) for a, b in zip(self.pieces, other.pieces))
+
+    def __ne__(self, other):
+        return not self.__eq__(other)
+
+    __hash__ = object.__hash__
+
     def __init__(self, pieces):
         out = []
         for p in pieces:
@@ -140,6 +171,29 @@ def splitlines(s):
     return split_on(s, '\n')
 
 
+def strip(s):
+    """str.strip(): whitespace at the two ends goes; numeric fields and signs carry none, an arbitrary text piece may"""
+    s = as_symstr(s)
+    pieces = list(s.pieces)
+    while pieces and isinstance(pieces[0], str):
+        q = pieces[0].lstrip()
+        if q:
+            pieces[0] = q
+            break
+        pieces.pop(0)
+    while pieces and isinstance(pieces[-1], str):
+        q = pieces[-1].rstrip()
+        if q:
+            pieces[-1] = q
+            break
+        pieces.pop()
+    if len(pieces) == 1 and isinstance(pieces[0], Txt):
+        pieces[0] = Txt(pieces[0].name, stripped=True)
+    elif pieces and any(isinstance(p, Txt) and not p.stripped for p in (pieces[0], pieces[-1])):
+        raise EngineError('strip() of an arbitrary text piece next to more text')
+    return norm(SymStr(pieces))
+
+
 def sanitise_name(s):
     """numpy.lib._iotools.NameValidator (default): strip, spaces -> '_', delete punctuation"""
     s = as_symstr(s)
@@ -238,8 +292,26 @@ def parse_float(itp, s):
 class FileObj:
     def __init__(self, vfs, path, mode):
         self.vfs, self.path, self.mode = vfs, path, mode
+        self.line = 0                                  # read position, in whole lines (read()/readlines() return the rest)
         if 'w' in mode:
             vfs[path] = ''
+
+    def _rest(self):
+        lines = splitlines(self.vfs[self.path])
+        if lines and lines[-1] == '' :
+            lines = lines[:-1]                         # text ending in a newline has no further (empty) line
+            ends = [True] * len(lines)
+        else:
+            ends = [True] * (len(lines) - 1) + [False]
+        return lines, ends
+
+    def readline(self):
+        lines, ends = self._rest()
+        if self.line >= len(lines):
+            return ''
+        l, e = lines[self.line], ends[self.line]
+        self.line += 1
+        return concat(l, '\n') if e else l
 
     def write(self, s):
         if 'w' not in self.mode:
@@ -248,10 +320,23 @@ class FileObj:
         return None
 
     def read(self):
+        if self.line:
+            lines, ends = self._rest()
+            out = []
+            for l, e in list(zip(lines, ends))[self.line:]:
+                out.append(l)
+                if e:
+                    out.append('\n')
+            self.line = len(lines)
+            return norm(SymStr(out)) if out else ''
+        self.line = 1 << 30
         return self.vfs[self.path]
 
     def readlines(self):
-        return splitlines(self.vfs[self.path])
+        lines, ends = self._rest()
+        out = [concat(l, '\n') if e else l for l, e in list(zip(lines, ends))[self.line:]]
+        self.line = len(lines)
+        return out
 
     def close(self):
         return None
